@@ -16,6 +16,9 @@
                                              (out, err) = FeederSpec(data) - the WHOLE content of the stream, however it was handed
                                              out -, every read result is non-empty except the last, nothing is left unread, and
                                              the loop model FeedStream(reads) gives the same.  One event per run (stateless).
+   out / outs of all events are read from the returned objects only after the LAST call of the group (a result must not
+   change when the object is used again); alias = 1 iff two results of a group are one and the same mutable object.
+   pad is the option VALUE; the harness hands it over as the module constant or as an equal string built at run time.
    After a rejected event the rest of the group is skipped (the hidden state of the object is unknown). *)
 EXTENDS AES, Json, IOUtils, TLC
 M == INSTANCE Feeder WITH BLK <- 16, CM <- 256, E <- EncBlockRK, D <- DecBlockRK
@@ -61,6 +64,7 @@ Step(ev) ==
         LET r == M!Call(cur.st, ev.dir, ev.data)
             v == IF Flag(r.err) # ev.err THEN (IF ev.err = 1 THEN "mode-call-raised" ELSE "mode-call-accepted-bad-size")
                  ELSE IF r.out # ev.out THEN "mode-call-output"
+                 ELSE IF ev.alias # 0 THEN "result-object-shared-between-calls"
                  ELSE "ok"
         IN  [v |-> v, cur |-> [cur EXCEPT !.st = r.st, !.bad = (v # "ok")]]
     ELSE IF ev.op = "m.end" /\ cur.kind = "m" THEN
@@ -71,6 +75,7 @@ Step(ev) ==
         LET r == IF ev.fin = 1 THEN M!Final(cur.st) ELSE M!Feed(cur.st, ev.data)
             v == IF Flag(r.err) # ev.err THEN (IF ev.err = 1 THEN "feed-raised" ELSE "feed-did-not-raise")
                  ELSE IF r.out # ev.out THEN "feed-output"
+                 ELSE IF ev.alias # 0 THEN "result-object-shared-between-calls"
                  ELSE "ok"
         IN  [v |-> v, cur |-> [cur EXCEPT !.st = r.f, !.bad = (v # "ok")]]
     ELSE IF ev.op = "f.end" /\ cur.kind = "f" THEN
